@@ -459,6 +459,19 @@ func c12Run(s *c12Scn, pace *json.Encoder, logEnc *json.Encoder, mu *sync.Mutex)
 		}
 	}
 
+	if strings.HasPrefix(s.Kind, "interactive") && oerr == nil && s.Early && len(events) > 1 {
+		// a dialogue that the device ends early: what it said last - up to the prompt that completed the operation - is part
+		// of the dialogue as well
+		lines := strings.Split(strings.TrimRight(res, " \n"), "\n")
+		pipe.Lock()
+		prompt := strings.TrimSpace(cli.Prompts[cli.Mode])
+		pipe.Unlock()
+
+		if !strings.Contains(res, "finished early") || strings.TrimSpace(lines[len(lines)-1]) != prompt {
+			whole = false
+		}
+	}
+
 	// expected outcome classes
 	want := "ok"
 	if s.Kind == "escalate" && (s.Esc == "refuses" || s.Esc == "rejects") {
